@@ -409,3 +409,110 @@ def wbs_remove_units():
 
 
 UNITS += wbs_remove_units()
+
+
+# ================================================================================================ the operators  t << others,  t >> others,  t // others
+from contracts.task import LInv_side, LINK_LABS, link_setter_call, forest_struct, up_struct
+
+
+def link_operator_unit(side):
+    """Task.__lshift__ / __rshift__:  self.predecessors += other  ==  self.predecessors = list(self.predecessors) + _to_list(other)  (facade __add__), through the link setter"""
+    fname = '__lshift__' if side == 'pre' else '__rshift__'; pname = 'predecessors' if side == 'pre' else 'successors'
+    M = (lambda h, t: h.P(t)) if side == 'pre' else (lambda h, t: h.S(t)); O = (lambda h, t: h.S(t)) if side == 'pre' else (lambda h, t: h.P(t))
+    mref = (lambda h, t: h.pre[t]) if side == 'pre' else (lambda h, t: h.suc[t])
+
+    def build():
+        hc = lambda c: H(c.eng, c.st); h0 = lambda c: H(c.eng, c.pre); me = lambda c: c['self']
+        state = {}
+
+        class OpPlugin(ChildrenPlugin):
+            def ev_Attribute(self_, eng, e, st):
+                if e.attr == pname and isinstance(e.ctx, ast.Load):
+                    s, o = eng.ev1(e.value, st)
+                    if o.s == T:
+                        s.oblige('safe/AttributeError-None', o.e != null, f'@{e.lineno}')
+                        return [(s, V(mref(H(eng, s), o.e), LR))]          # the facade stands for the list object it wraps
+                return NotImplemented
+
+            def binop(self_, eng, st, k, l_, r, line):
+                # facade + other  ==  facade._list.__add__(_to_list(other)); other is a list of non-None tasks here, so _to_list is the identity
+                if k == 'Add' and l_.s in (LR, LT) and r.s == LT: return V(cat(self_.listval(eng, st, l_, line), r.e), LT)
+                return NotImplemented
+
+            def assign(self_, eng, s, target, v):
+                if isinstance(target, ast.Attribute) and target.attr == pname and v.s == LT:
+                    s2, o = eng.ev1(target.value, s)
+                    res, rc = link_setter_call(eng, s2, side, o.e, v.e, target.lineno); state['rc'] = rc
+                    return [(s3, r if isinstance(r, Raise) else FALL) for s3, r in res]
+                return NotImplemented
+
+        def rc(c):
+            hh = h0(c); E0 = c.pre.ghost['E']; m = me(c); Vv = cat(M(hh, m), c['other'])
+            return Exists([x], And(mem(Vv, x), Or(x == m, Desc(hh.par, x, m), Desc(hh.par, m, x), TCp(E0, m, x))))
+        reqs = [(l_, (lambda l_: lambda c: LInv_side(side, hc(c), c.st.ghost['E'])[l_])(l_)) for l_ in LINK_LABS] + \
+               [('task-and-the-named-tasks-are-public', lambda c: And(me(c) != null, hc(c).tid[me(c)] != EMPTY, ForAll([x], Implies(mem(c['other'], x), And(x != null, hc(c).tid[x] != EMPTY))),
+                                                                       ForAll([x], Implies(mem(M(hc(c), me(c)), x), hc(c).tid[x] != EMPTY), patterns=[mem(M(hc(c), me(c)), x)]))),
+                ('C01/F4-no-task-is-its-own-ancestor', lambda c: And(Acyc(hc(c).par), hc(c).par[null] == null)),
+                ('C01/F1-F3-children-lists-mirror-the-parents', lambda c: forest_struct(hc(c), me(c))), ('DR-reserved-id-only-on-parentless-tasks', lambda c: up_struct(hc(c))),
+                ('hidden-root-has-reserved-id', lambda c: ForAll([w_], Implies(w_ != W.null, And(hc(c).root[w_] != null, hc(c).tid[hc(c).root[w_]] == EMPTY, hc(c).par[hc(c).root[w_]] == null)), patterns=[hc(c).root[w_]]))]
+        unchanged = lambda c: And(hc(c).elems == h0(c).elems, hc(c).pre == h0(c).pre, hc(c).suc == h0(c).suc, hc(c).par == h0(c).par)
+        fc = {'sig': {'self': T, 'other': LT}, 'ghost': {'E': S('REL', REL)}, 'requires': reqs,
+              'raises': {'RuntimeError': [('C15/rejected-call-changes-nothing', unchanged), ('C01/rejected-only-for-a-stated-reason', rc)]},
+              'ensures': [(l_, (lambda l_: lambda c: LInv_side(side, hc(c), c.st.ghost['E'])[l_])(l_)) for l_ in LINK_LABS] +
+                         [('C16/links-are-the-old-ones-plus-the-named-tasks', lambda c: ForAll([x], mem(M(hc(c), me(c)), x) == Or(mem(M(h0(c), me(c)), x), mem(c['other'], x)))),
+                          ('C16/old-links-keep-their-order-and-come-first', lambda c: And(
+                              ForAll([a_, b_], Implies(And(mem(M(h0(c), me(c)), a_), mem(M(h0(c), me(c)), b_)), (idx(M(hc(c), me(c)), a_) < idx(M(hc(c), me(c)), b_)) == (idx(M(h0(c), me(c)), a_) < idx(M(h0(c), me(c)), b_)))),
+                              ForAll([a_, b_], Implies(And(mem(M(h0(c), me(c)), a_), mem(c['other'], b_), Not(mem(M(h0(c), me(c)), b_))), idx(M(hc(c), me(c)), a_) < idx(M(hc(c), me(c)), b_))))),
+                          ('C16/mirror-side-updated', lambda c: ForAll([a_, b_], Implies(a_ != null, mem(O(hc(c), a_), b_) == If(b_ == me(c), Or(mem(O(h0(c), a_), b_), mem(c['other'], a_)), mem(O(h0(c), a_), b_))))),
+                          ('C16/links-of-all-other-tasks-unchanged', lambda c: ForAll([t_], Implies(And(t_ != null, t_ != me(c)), M(hc(c), t_) == M(h0(c), t_)))),
+                          ('C16/returns-the-right-operand', lambda c: c.result.e == c['other']),
+                          ('C01/accepted-only-without-a-reason-to-reject', lambda c: Not(rc(c)))]}
+        return Engine(F, f'Task.{fname}', {}, TASK_CLASSES, fc, plugins=[OpPlugin()]), LIST_AX + LIST_CAT_AX + GRAPH_AX + DEP_AX
+    return Unit(f'Task.{fname}', F, build, ['C01', 'C15', 'C16'], timeout_ms=15000)
+
+
+UNITS += [link_operator_unit('pre'), link_operator_unit('suc')]
+
+
+def floordiv_unit():
+    """Task.__floordiv__:  self.children += other  ==  self.children = list(self.children) + _to_list(other), through the children setter.
+    Domain of the proof: `other` names no current child and no task twice (then the assigned list has no repetition)"""
+    def build():
+        hc = lambda c: H(c.eng, c.st); h0 = lambda c: H(c.eng, c.pre); me = lambda c: c['self']
+        Vv = lambda c: cat(h0(c).ch(me(c)), c['other'])
+
+        class OpPlugin(ChildrenPlugin):
+            def ev_Attribute(self_, eng, e, st):
+                if e.attr == 'children' and isinstance(e.ctx, ast.Load):
+                    s, o = eng.ev1(e.value, st)
+                    if o.s == T:
+                        s.oblige('safe/AttributeError-None', o.e != null, f'@{e.lineno}')
+                        return [(s, V(H(eng, s).chl[o.e], LR))]
+                return NotImplemented
+
+            def binop(self_, eng, st, k, l_, r, line):
+                if k == 'Add' and l_.s in (LR, LT) and r.s == LT: return V(cat(self_.listval(eng, st, l_, line), r.e), LT)
+                return NotImplemented
+
+            def assign(self_, eng, s, target, v):
+                if isinstance(target, ast.Attribute) and target.attr == 'children' and v.s == LT:
+                    s2, o = eng.ev1(target.value, s)
+                    return [(s3, r if isinstance(r, Raise) else FALL) for s3, r in children_setter_call(eng, s2, o.e, v.e, target.lineno)]
+                return NotImplemented
+        unchanged = lambda c: And(hc(c).par == h0(c).par, hc(c).own == h0(c).own, hc(c).elems == h0(c).elems)
+        fc = {'sig': {'self': T, 'other': LT}, 'ghost': {'attach_rejected': BOOL},
+              'requires': [(l_, (lambda l_: lambda c: Inv(hc(c))[l_])(l_)) for l_ in LABS] +
+                          [('task-non-null', lambda c: me(c) != null), ('ghost-flag-starts-false', lambda c: Not(c.st.ghost['attach_rejected'])),
+                           ('named-tasks-are-public-new-and-not-repeated', lambda c: And(nodup(c['other']), ForAll([x], Implies(mem(c['other'], x), And(x != null, hc(c).tid[x] != EMPTY, Not(mem(hc(c).ch(me(c)), x)))))))],
+              'raises': {'RuntimeError': [('C15/a-call-rejected-by-a-check-changes-nothing', lambda c: Or(c.st.ghost['attach_rejected'], unchanged(c))),
+                                          ('C01,C05,C11/rejected-by-a-check-only-for-a-stated-reason', lambda c: Or(c.st.ghost['attach_rejected'], reasons(h0(c), me(c), Vv(c))))]},
+              'ensures': [(l_, (lambda l_: lambda c: Inv(hc(c))[l_])(l_)) for l_ in LABS] +
+                         [('C16/children-are-the-old-ones-followed-by-the-named-tasks', lambda c: hc(c).ch(me(c)) == Vv(c)),
+                          ('C16/every-named-task-reports-this-parent', lambda c: ForAll([x], Implies(mem(c['other'], x), hc(c).par[x] == me(c)))),
+                          ('C16/parents-of-all-other-tasks-unchanged', lambda c: ForAll([x], Implies(Not(mem(c['other'], x)), hc(c).par[x] == h0(c).par[x]))),
+                          ('C16/returns-the-right-operand', lambda c: c.result.e == c['other'])]}
+        return Engine(F, 'Task.__floordiv__', {}, TASK_CLASSES, fc, plugins=[OpPlugin()]), LIST_AX + LIST_CAT_AX + GRAPH_AX
+    return Unit('Task.__floordiv__', F, build, ['C01', 'C11', 'C15', 'C16'], timeout_ms=15000)
+
+
+UNITS += [floordiv_unit()]
